@@ -169,6 +169,11 @@ pub fn generate_history(corpus: &[Project], seed: u64, property: &str, flavour: 
     let p_update_only = if flavour == Flavour::ApiMixed { rate(&mut rng) } else { 0 };
     let p_checkpoint = [2u32, 4, 6, 8][rng.below(4)];
     let n_steps = rng.range(1, 14);
+    // one history in sixteen is four times as long (up to 56 editor steps): more revisions per file for reverts to
+    // return to, more generations of the module cache. Decided by the seed itself, without a draw, so that every
+    // other history is what it was before this was added.
+    let long_history = seed.wrapping_mul(0x9E37_79B9_7F4A_7C15) >> 60 == 0;
+    let n_steps = if long_history { n_steps * 4 } else { n_steps };
 
     let mut fs: Fs = project.files.clone();
     let mut versions: BTreeMap<String, Vec<String>> = BTreeMap::new();
